@@ -15,7 +15,7 @@ if ! git apply "$PATCH" 2>/dev/null; then
 fi
 find . -name "*.orig" -delete
 git diff -- infretis > /tmp/wt/$ID.patch
-cp "$DEMO" "$WT/demo_seed.py"
+cp "$DEMO" "$WT/demo_seed.py"; cp "$DEMO" "$WT/$(basename "$DEMO")"
 export PYTHONPATH="$WT"
 imp=$(/venv/bin/python -c "import importlib.util, infretis; print(infretis.__file__)")
 /venv/bin/python demo_seed.py > /tmp/wt/$ID.demo_with.txt 2>&1; rc_with=$?
